@@ -57,10 +57,19 @@ def gen_item(rng, uid):
         z = rand_zid(rng)
         # also: a modify date equal to the creation date the ZID carries
         ident = ["modzid", z[:6] if rng.random() < 0.3 else short(rand_date(rng)), z]
-    else:
+    elif r < 0.92:
         ident = ["long", rand_date(rng).isoformat()]
+    else:
+        ident = ["mod", short(rand_date(rng))]       # an edited note that has no ZID: a modify date alone
     lo = 1 if ident[0] == "long" and rng.random() < 0.9 else 0
-    return [kind, [prio] if prio else None, ident, gen_words(rng, uid, lo, 5)]
+    words = gen_words(rng, uid, lo, 5)
+    if ident[0] == "mod":
+        # the word after the date must not be ZID-shaped (it would be the note's ZID: that is the form "modzid");
+        # long dates, six-digit look-alikes and everything else are body words
+        words = [w for w in words[:1] if w[0] != "zid"] + words[1:]
+        if rng.random() < 0.5:
+            words = [["date", rand_date(rng).isoformat()]] + words
+    return [kind, [prio] if prio else None, ident, words]
 
 
 def gen_blocks(rng, uid, lo=0, hi=2):
@@ -97,7 +106,8 @@ def word_text(w):
 
 def ident_words(i):
     return {"plain": lambda: [["id", i[1]]], "zid": lambda: [["zid", i[1]]],
-            "modzid": lambda: [["id", i[1]], ["zid", i[2]]], "long": lambda: [["date", i[1]]]}[i[0]]()
+            "modzid": lambda: [["id", i[1]], ["zid", i[2]]], "long": lambda: [["date", i[1]]],
+            "mod": lambda: [["id", i[1]]]}[i[0]]()
 
 
 def render_item(it):
